@@ -41,7 +41,7 @@ LEVEL = 'proof'
 REQUIRED = ['C15_weighted_fft_inverse', 'C15_weighted_fft_inverse_right', 'C15_weighted_fft_closed_form',
             'C15_weighted_ifft_closed_form', 'C15_diagonalises_alpha_circulant', 'C15_local_factor_is_eigenvalue',
             'C15_G_inverse_closed_form', 'C15_qdiag_one_shot', 'C15_paradiag_increment_solves_alpha_system',
-            'C15_paradiag_fixed_point_is_sequential', 'C15_gaussian_rationals_field', 'C15_nonvacuous_roots',
+            'C15_paradiag_fixed_point_is_sequential', 'C15_paradiag_error_equation', 'C15_gaussian_rationals_field', 'C15_nonvacuous_roots',
             'C15_nonvacuous_one_shot', 'C15_nonvacuous_fixed_point']
 
 EPS = 2.0 ** -52
@@ -448,7 +448,7 @@ def check_model_iteration(ck, I):
                 P = c.MS[0].levels[0].prob
                 uinit = P.u_init
                 uinit[:] = u0c
-                with time_limit(60):
+                with time_limit(30):
                     c.run(u0=uinit, t0=0.0, Tend=N * float(dt))
                 ref = np.array([[complex(float(to_c(T[l][i])[0]), float(to_c(T[l][i])[1])) for i in range(n)] for l in range(N)])
                 live = np.array([np.asarray(c.MS[l].levels[0].u[1]).flatten() for l in range(N)])
@@ -474,28 +474,31 @@ def check_model_iteration(ck, I):
 # ----------------------------------------------------------------------------- problems
 
 def random_problem(ck, kind):
+    # step sizes are powers of two: block times then accumulate exactly, so that Tend = blocks * L * dt is hit
+    # exactly (with dt = 0.2, L = 16 the controller's float time accumulation runs a 4th block for Tend = 9.6;
+    # that is property C06's concern, not this one's)
     rng = ck.rng
     if kind == 'dahl':
         n = rng.choice([1, 1, 2, 3, 4])
         lam = np.array([complex(-rng.uniform(0.1, 6.0), rng.uniform(-4.0, 4.0)) for _ in range(n)])
-        return dict(lambdas=lam, u0=1.0), rng.choice([0.05, 0.1, 0.2])
+        return dict(lambdas=lam, u0=1.0), rng.choice([0.0625, 0.125, 0.25])
     if kind == 'dahl_imex':
         n = rng.choice([1, 2, 3])
         li = np.array([complex(-rng.uniform(0.5, 6.0), rng.uniform(-2.0, 2.0)) for _ in range(n)])
         le = np.array([complex(-rng.uniform(0.0, 0.3), rng.uniform(-0.3, 0.3)) for _ in range(n)])
-        return dict(lambdas_implicit=li, lambdas_explicit=le, u0=1.0), rng.choice([0.05, 0.1])
+        return dict(lambdas_implicit=li, lambdas_explicit=le, u0=1.0), rng.choice([0.0625, 0.125])
     if kind == 'heat':
         bc = rng.choice(['periodic', 'dirichlet-zero'])
         nv = rng.choice([8, 16]) if bc == 'periodic' else rng.choice([7, 15])
-        return dict(nvars=nv, nu=rng.uniform(0.05, 1.0), freq=2, bc=bc, order=rng.choice([2, 4])), rng.choice([0.005, 0.01, 0.02])
+        return dict(nvars=nv, nu=rng.uniform(0.05, 1.0), freq=2, bc=bc, order=rng.choice([2, 4])), rng.choice([2.0 ** -8, 2.0 ** -7, 2.0 ** -6])
     if kind == 'heatf':
         bc = rng.choice(['periodic', 'dirichlet-zero'])
         nv = rng.choice([8, 16]) if bc == 'periodic' else rng.choice([7, 15])
-        return dict(nvars=nv, nu=rng.uniform(0.05, 1.0), freq=2, bc=bc), rng.choice([0.005, 0.01, 0.02])
+        return dict(nvars=nv, nu=rng.uniform(0.05, 1.0), freq=2, bc=bc), rng.choice([2.0 ** -8, 2.0 ** -7, 2.0 ** -6])
     if kind == 'adv':
         st = rng.choice(['center', 'upwind'])
         return dict(nvars=rng.choice([8, 16]), c=rng.uniform(0.2, 2.0), freq=2, stencil_type=st,
-                    order=rng.choice([2, 4] if st == 'center' else [1, 2, 3]), bc='periodic'), rng.choice([0.005, 0.01, 0.02])
+                    order=rng.choice([2, 4] if st == 'center' else [1, 2, 3]), bc='periodic'), rng.choice([2.0 ** -8, 2.0 ** -7, 2.0 ** -6])
     raise ValueError(kind)
 
 
@@ -508,7 +511,11 @@ def pp_repr(pp):
 def check_sweeper_one_shot(ck, I, mp):
     ncases = 30 if ck.tier == 'quick' else 150
     worst = 0.0
+    ntimeouts = 0
     for _ in range(ncases):
+        if ntimeouts >= 3:
+            ck.notes.append('stage stopped after 3 non-terminating runs (each reported as a violation)')
+            break
         try:
             kind = ck.rng.choice(['dahl', 'dahl', 'heat', 'adv'])
             pp, dt = random_problem(ck, kind)
@@ -559,6 +566,8 @@ def check_sweeper_one_shot(ck, I, mp):
                 ck.violation('QDiagonalization.update_nodes does not solve (G (x) I - dt Q (x) A) x = r (rel. err %.3e)' % e,
                              replay, match={'kind': 'one-shot', 'problem': kind})
         except Exception as ex:    # exceptions of the code under test are findings, not crashes
+            if isinstance(ex, RunTimeout):
+                ntimeouts += 1
             ck.violation('one-shot-sweep raised %s: %s' % (type(ex).__name__, str(ex)[:200]), {'seed': ck.seed, 'locals': {k: str(v)[:300] for k, v in locals().items() if k in ('kind', 'pp', 'dt', 'L', 'M', 'alpha', 'l')}},
                          match={'kind': 'exception', 'stage': 'one-shot-sweep', 'exception': type(ex).__name__})
     ck.cov['one_shot_max_rel_error_over_condS'] = worst
@@ -569,7 +578,12 @@ def check_sweeper_one_shot(ck, I, mp):
 def check_increment_system(ck, I):
     ncases = 30 if ck.tier == 'quick' else 150
     worst = 0.0
+    worst_e = 0.0
+    ntimeouts = 0
     for _ in range(ncases):
+        if ntimeouts >= 3:
+            ck.notes.append('stage stopped after 3 non-terminating runs (each reported as a violation)')
+            break
         try:
             kind = ck.rng.choice(['dahl', 'dahl', 'heat', 'adv', 'dahl_imex', 'heatf'])
             pp, dt = random_problem(ck, kind)
@@ -587,7 +601,7 @@ def check_increment_system(ck, I):
             u0 = np.array([complex(ck.rng.uniform(-1, 1), ck.rng.uniform(-1, 1)) for _ in range(n)])
             uinit = P.u_init
             uinit[:] = u0.reshape(uinit.shape)
-            with time_limit(60):
+            with time_limit(30):
                 c.run(u0=uinit, t0=0.0, Tend=L * dt)
             Q = np.asarray(lvl0.sweep.coll.Qmat[1:, 1:], dtype=float)
             nodes = lvl0.sweep.coll.nodes
@@ -613,13 +627,29 @@ def check_increment_system(ck, I):
             ck.case(key=('incr', kind, L, M, round(math.log10(alpha), 3), avg), nontrivial=L > 1,
                     sample={'increment_system': {k: replay[k] for k in ('problem', 'n_steps', 'num_nodes', 'alpha', 'defect')}})
             ck.traces += 1
+            if kind not in ('dahl_imex', 'heatf'):
+                # C15_paradiag_error_equation on the implementation:
+                # K_alpha (u1 - ustar) = -alpha H (u_spread - ustar)_{L-1} in step 0, zero in the other steps
+                ref = np.array(sequential_oracle(Q, nodes, A, forcing, dt, u0, 0.0, L))
+                e1 = (inc + u0[None, None, :]) - ref
+                rhs_e = np.zeros((L, M, n), dtype=complex)
+                rhs_e[0, :, :] = -alpha * (u0 - ref[L - 1, M - 1])[None, :]
+                defect_e = np.abs(Kalpha @ e1.flatten() - rhs_e.flatten()).max()
+                ratio_e = defect_e / (EPS * L / alpha * max(scale, np.abs(ref).max()))
+                worst_e = max(worst_e, ratio_e)
+                if not (ratio_e <= C_INC):
+                    ck.violation('error after one it_ParaDiag does not satisfy the error equation C_alpha e\' = -alpha H e_end (defect %.3e)' % defect_e,
+                                 dict(replay, defect_error_equation=float(defect_e)), match={'kind': 'error-equation', 'problem': kind})
             if not (ratio <= C_INC):
                 ck.violation('the increment of one it_ParaDiag does not solve the alpha-circulant all-at-once system (defect %.3e, scale %.3e)' % (defect, scale),
                              replay, match={'kind': 'increment-system', 'problem': kind, 'imex': kind in ('dahl_imex', 'heatf')})
         except Exception as ex:    # exceptions of the code under test are findings, not crashes
+            if isinstance(ex, RunTimeout):
+                ntimeouts += 1
             ck.violation('single-iteration raised %s: %s' % (type(ex).__name__, str(ex)[:200]), {'seed': ck.seed, 'locals': {k: str(v)[:300] for k, v in locals().items() if k in ('kind', 'pp', 'dt', 'L', 'M', 'alpha', 'avg')}},
                          match={'kind': 'exception', 'stage': 'single-iteration', 'exception': type(ex).__name__})
     ck.cov['increment_system_defect_over_eps_N_over_alpha'] = worst
+    ck.cov['error_equation_defect_over_eps_N_over_alpha'] = worst_e
 
 
 # ----------------------------------------------------------------------------- O4 converged runs
@@ -635,7 +665,11 @@ def check_converged_runs(ck, I):
     kinds = ['dahl', 'dahl', 'dahl_imex', 'heat', 'heatf', 'adv']
     worst = 0.0
     worst_iter_ratio = 0.0
+    ntimeouts = 0
     for idx in range(ncases):
+        if ntimeouts >= 3:
+            ck.notes.append('stage stopped after 3 non-terminating runs (each reported as a violation)')
+            break
         try:
             kind = kinds[idx % len(kinds)]
             pp, dt = random_problem(ck, kind)
@@ -654,7 +688,7 @@ def check_converged_runs(ck, I):
             Tend = L * dt * nblocks     # multiple of the block length
             with warnings.catch_warnings():
                 warnings.simplefilter('ignore')
-                with time_limit(120):
+                with time_limit(30):
                     uend, stats = c.run(u0=u0, t0=0.0, Tend=Tend)
             us = get_sorted(stats, type='u', sortby='time')
             niter = max(me[1] for me in get_sorted(stats, type='niter'))
@@ -698,6 +732,8 @@ def check_converged_runs(ck, I):
                     ck.violation('ParaDiag needed %d iterations, contraction alpha/(1-alpha) allows at most %d' % (niter, bound),
                                  replay, match=dict(match, what='rate'))
         except Exception as ex:    # exceptions of the code under test are findings, not crashes
+            if isinstance(ex, RunTimeout):
+                ntimeouts += 1
             ck.violation('converged-run raised %s: %s' % (type(ex).__name__, str(ex)[:200]), {'case': idx, 'seed': ck.seed, 'locals': {k: str(v)[:300] for k, v in locals().items() if k in ('kind', 'pp', 'dt', 'L', 'M', 'alpha', 'avg', 'nblocks')}},
                          match={'kind': 'exception', 'stage': 'converged-run', 'exception': type(ex).__name__})
     ck.cov['converged_run_max_rel_error'] = worst
